@@ -1,1 +1,8 @@
-
+import GfsProofs.RngLemmas
+import GfsProofs.BlocksLemmas
+import GfsProofs.ParseSyn
+import GfsProofs.ParseSem
+import GfsProofs.ListViews
+import GfsProofs.NormLemmas
+import GfsProofs.StrParse
+import GfsProofs.PadRangeLemmas
